@@ -61,10 +61,6 @@ pub fn classify(msg: &str, site: &str, class: &str) -> Option<&'static str> {
     if missing_child && listed_site && (class == "mutant" || class == "corpus") {
         return Some("C03.malformed_tree_unwrap_panics");
     }
-    if f == "parse_included_files" || f == "syntax_to_semantic" {
-        // include without a usable path: decided under C18
-        return Some("C18.include_without_path_panics");
-    }
     None
 }
 
